@@ -361,11 +361,11 @@ Section WithOracle.
     else bytes_eqb req (ver v).
 
   Lemma match_npm_spec req l :
-    snd (match_npm O req l) =
+    match_npm O req l =
       if o_constraint O sys_npm req then filter (satisfies sys_npm req) (sort_npm O l)
       else firstn 1 (filter (satisfies sys_npm req) (sort_npm O l)).
   Proof.
-    unfold match_npm, satisfies; cbn [snd]. rewrite N.eqb_refl.
+    unfold match_npm, satisfies. rewrite N.eqb_refl.
     destruct (o_constraint O sys_npm req); auto.
     apply find_firstn_filter.
   Qed.
@@ -378,17 +378,11 @@ Section WithOracle.
     destruct (o_constraint O sys req); auto.
   Qed.
 
-  Lemma match_requirement_fst_perm rk l : Permutation (fst (match_requirement O rk l)) l.
-  Proof.
-    unfold match_requirement. destruct (N.eqb (pk_sys (vk_pkg rk)) sys_npm); simpl; auto.
-    apply sort_npm_perm.
-  Qed.
-
   (* exactness: the result holds exactly the satisfying versions of the list
      (constraints of every system, and string requirements outside npm) *)
   Lemma match_requirement_exact rk l v :
     (N.eqb (pk_sys (vk_pkg rk)) sys_npm = true -> o_constraint O sys_npm (vk_ver rk) = true) ->
-    In v (snd (match_requirement O rk l)) <-> In v l /\ satisfies (pk_sys (vk_pkg rk)) (vk_ver rk) v = true.
+    In v (match_requirement O rk l) <-> In v l /\ satisfies (pk_sys (vk_pkg rk)) (vk_ver rk) v = true.
   Proof.
     intros Hc. unfold match_requirement.
     destruct (N.eqb (pk_sys (vk_pkg rk)) sys_npm) eqn:E.
@@ -396,14 +390,14 @@ Section WithOracle.
       rewrite filter_In. split; intros [H1 H2]; split; auto.
       + eapply Permutation_in; [apply sort_npm_perm|]; auto.
       + eapply Permutation_in; [symmetry; apply sort_npm_perm|]; auto.
-    - simpl. rewrite match_generic_spec by auto. apply filter_In.
+    - rewrite match_generic_spec by auto. apply filter_In.
   Qed.
 
   (* an npm requirement that is not a range: the first version, in npm order, whose string
      or one of whose tags equals it; nothing when there is none *)
   Lemma match_npm_exact_string req l :
     o_constraint O sys_npm req = false ->
-    snd (match_npm O req l) = firstn 1 (filter (npm_exact req) (sort_npm O l)).
+    match_npm O req l = firstn 1 (filter (npm_exact req) (sort_npm O l)).
   Proof.
     intros H. rewrite match_npm_spec, H. f_equal.
     apply filter_ext. intros v. unfold satisfies. rewrite H, N.eqb_refl. auto.
@@ -504,7 +498,7 @@ Section Assembled.
     N.eqb (pk_sys (vk_pkg rk)) sys_npm = true ->
     cmp_laws (npm_parses O) (o_compare O sys_npm) ->
     NoDup (map ver l) -> Permutation l l' ->
-    snd (match_requirement O rk l) = snd (match_requirement O rk l').
+    match_requirement O rk l = match_requirement O rk l'.
   Proof.
     intros Hs HL ND Hp. unfold match_requirement. rewrite Hs.
     rewrite (match_npm_perm (vk_ver rk) l l' HL ND Hp). auto.
@@ -591,8 +585,8 @@ Definition w_m2 : version := mk_ver sys_maven [48; 46; 57] [].   (* 0.9 *)
 Lemma match_raw_witness :
   Permutation [w_m1; w_m2] [w_m2; w_m1] /\ NoDup (map ver [w_m1; w_m2]) /\
   no_equal_distinct all_oracle sys_maven [w_m1; w_m2] /\
-  snd (match_requirement all_oracle w_req [w_m1; w_m2]) = [w_m1; w_m2] /\
-  snd (match_requirement all_oracle w_req [w_m2; w_m1]) = [w_m2; w_m1] /\
+  match_requirement all_oracle w_req [w_m1; w_m2] = [w_m1; w_m2] /\
+  match_requirement all_oracle w_req [w_m2; w_m1] = [w_m2; w_m1] /\
   gen_cmp all_oracle sys_maven w_m2 w_m1 = (-1)%Z.
 Proof.
   split; [apply perm_swap|]. split; [repeat constructor; simpl; intuition discriminate|].
